@@ -10,16 +10,26 @@ Engine E3 (net).  Two real BinaryBoxProtocol instances joined by a net.Link.
   the pairs in tape-chosen order.  Everything the sender wrote is then delivered
   to the receiver in tape-chosen pieces (net.cut with the length prefixes as
   preferred cut points).
-* "args" runs: 1..4 (Argument, value) pairs drawn from Integer, String, Unicode,
-  Float, Boolean, Decimal, DateTime, Path, ListOf (nested), AmpList (nested,
-  optional members) are encoded with toBox into one box, sent the same way and
-  decoded with fromBox on the receiving side.
+* "args" runs: a schema of 1..4 Argument objects drawn from Integer, String,
+  Unicode, Float, Boolean, Decimal, DateTime, Path, ListOf (nested), AmpList
+  (nested, optional members) is built once - argument objects live on Command
+  classes and serve every decode of the process - and used for 1..5 rounds of
+  fresh values, each round one box (toBox/fromBox, or makeArguments/
+  parseArguments of a Command class made from the schema), sent the same way,
+  in a share of the rounds over a second connection.  In a share of the rounds
+  some of the values on the wire are MALFORMED: a well-formed encoding with its
+  tail cut, cut anywhere, a lone byte, bytes appended, one bit flipped, emptied,
+  garbage, the key missing, or - for ListOf/AmpList - the same damage inside one
+  element/member under intact outer framing.  What a malformed value decodes to
+  (or which exception refuses it) is not judged.
 
 Oracle: received boxes == valid boxes sent, in order (a prefix of them after
 every delivery); an unrepresentable box raises from sendBox and writes nothing;
 the sender's bytes parse, with the reference parser, to exactly the valid boxes;
-every decoded argument equals the encoded value (NaN ~ NaN; DateTime exact for
-whole-minute offsets, local fields equal and offset within a minute otherwise).
+every well-formed argument value - whatever the same argument object was handed
+before, in the same box or in an earlier one - decodes to the encoded value
+(NaN ~ NaN; DateTime exact for whole-minute offsets, local fields equal and
+offset within a minute otherwise).
 """
 import datetime
 import decimal
@@ -37,7 +47,7 @@ ENGINE = "net"
 LEVEL = "exploration"
 TECHNIQUE = ("deterministic simulation: seeded box/argument grammar sent by one real BinaryBoxProtocol to another over a "
              "simulated link with seeded segmentation, vs a reference wire model and value equality")
-QUICK_RUNS = 50000
+QUICK_RUNS = 45000
 TWIN_P = 0.08   # this share of the runs drives two independent instances of the scenario one after the other (detsim.runner._run_scenario)
 BATCH = 100
 # Known finding (empty key accepted by AmpBox.serialize): weight of that item among
@@ -48,13 +58,16 @@ COMPONENTS = {
              "twisted.protocols.basic.Int16StringReceiver/StatefulStringProtocol", "amp.Argument subclasses toBox/fromBox"],
     "stub": ["TCP transport and delivery segmentation (detsim.net.Link / cut)", "box receiver (recorder)"],
 }
-RULE = ("run = 1..5 boxes (valid / unrepresentable / reference-serialized) or one box of 1..4 typed arguments, sent through a "
-        "real BinaryBoxProtocol and delivered to another in tape-chosen pieces; non-trivial = the wire was cut at least once "
-        "and at least one box arrived")
+RULE = ("run = 1..5 boxes (valid / unrepresentable / reference-serialized) or 1..5 boxes of the same 1..4 typed argument "
+        "objects (fresh values per box; in a share of the boxes some values malformed/truncated, not judged themselves), sent "
+        "through a real BinaryBoxProtocol and delivered to another in tape-chosen pieces; non-trivial = the wire was cut at "
+        "least once and at least one box arrived")
 ASSUMPTIONS = [
     "integers are kept below 2**8000 (CPython's int<->str digit limit is an interpreter setting, not AMP's)",
     "Unicode values contain no lone surrogates; Path values are text-mode absolute FilePaths; DateTime years 2..9998",
     "float equality is == or both NaN (NaN payload bits are not part of the textual wire form)",
+    "a malformed argument value may decode to anything or be refused with any Exception; the statement only covers the "
+    "well-formed values decoded by the same argument objects before and after it",
 ]
 
 
@@ -134,7 +147,7 @@ def gen_bad_box(sim):
     return kind, box
 
 
-def deliver_all(sim, link, recv, expected, ctx):
+def deliver_all(sim, link, recv, expected, ctx, cap=5000):
     """Move everything A wrote onto the wire and deliver it to B in pieces."""
     if link.a.out:
         link.do("xmit", "A")
@@ -148,7 +161,7 @@ def deliver_all(sim, link, recv, expected, ctx):
     sim.event("wire", wire, "pieces", len(pieces))
     with sim.guard("receiver-raised"):
         for p in pieces:
-            sim.step(5000)
+            sim.step(cap)
             link.do("deliver", "B", len(p))
             got = recv.boxes
             sim.check("received-prefix", got == expected[:len(got)], "wire",
@@ -358,54 +371,199 @@ def equal(a, b):
     return a == b
 
 
-def run_args(sim, link, a, b, rb):
-    items = []
-    box = amp.AmpBox()
+def ref_list(elems):
+    """Reference ListOf framing: 16-bit big-endian length, then the element."""
+    return b"".join(struct.pack("!H", len(e)) + e for e in elems)
+
+
+TAILS = [b"\x00", b"\x00\x09x", b"\xff\xff", b"z", b"\x00\x00", b"\x00\x01"]
+LONE = [b"\x00", b"\x01", b"\xff", b"-", b"\x00\x05ab", b"\x00\x00\x00"]
+
+
+def damage(sim, at, value, proto, depth=0):
+    """-> (operator name, bytes) : a malformed/truncated wire form derived from the well-formed encoding of value.
+    Structured types are, in a share of the cases, damaged INSIDE one element/member with the outer framing
+    (written by the reference framing) left intact."""
+    if isinstance(at, amp.ListOf) and value and depth < 3 and sim.draw_bool(0.35, "dmg-inner"):
+        i = sim.draw_int(0, len(value) - 1, "dmg-elem")
+        elems = [at.elementType.toString(v) for v in value]
+        op, elems[i] = damage(sim, at.elementType, value[i], proto, depth + 1)
+        return "inner-" + op, ref_list(elems)
+    if isinstance(at, amp.AmpList) and depth < 3:
+        present = [(r, name, st) for r, row in enumerate(value) for name, st in at.subargs if row[name.decode()] is not None]
+        if present and sim.draw_bool(0.35, "dmg-inner"):
+            r, name, st = sim.draw_choice(present, "dmg-member")
+            op, dmg = damage(sim, st, value[r][name.decode()], proto, depth + 1)
+            out = []
+            for j, row in enumerate(value):
+                if j != r:
+                    out.append(at.toStringProto([row], proto))
+                    continue
+                out.append(ampwire.serialize([(n, dmg if n == name else t.toStringProto(row[n.decode()], proto))
+                                              for n, t in at.subargs if row[n.decode()] is not None]))
+            return "inner-" + op, b"".join(out)
+    good = at.toStringProto(value, proto)
+    op = sim.draw_weighted([("cut-tail", 6), ("lone", 3), ("cut-any", 3), ("extra-tail", 3), ("flip", 3), ("empty", 1),
+                            ("garbage", 2)], "dmg-op")
+    if not good and op in ("cut-tail", "cut-any", "flip"):
+        op = "lone"
+    if op == "cut-tail":
+        return op, good[:len(good) - sim.draw_int(1, min(4, len(good)), "dmg-cut")]
+    if op == "lone":
+        return op, sim.draw_choice(LONE, "dmg-lone")
+    if op == "cut-any":
+        return op, good[:sim.draw_int(0, len(good) - 1, "dmg-keep")]
+    if op == "extra-tail":
+        return op, good + sim.draw_choice(TAILS, "dmg-tail")
+    if op == "flip":
+        i = sim.draw_int(0, len(good) - 1, "dmg-at")
+        return op, good[:i] + bytes([good[i] ^ (1 << sim.draw_int(0, 7, "dmg-bit"))]) + good[i + 1:]
+    if op == "empty":
+        return op, b""
+    return op, sim.draw_bytes(sim.draw_int(1, 10, "dmg-len"), b"\x00\x01\xffa0-.")
+
+
+class Conn:
+    """One sender/receiver pair of real BinaryBoxProtocols over a link, with the boxes sent so far."""
+
+    def __init__(self, sim, tag):
+        self.tag = tag
+        self.ra, self.rb = Rec(), Rec()
+        self.a = amp.BinaryBoxProtocol(self.ra)
+        self.b = amp.BinaryBoxProtocol(self.rb)
+        self.link = net.Link(sim, self.a, self.b)
+        self.link.connect()
+        self.expected = []
+
+
+def run_args(sim, conn0):
+    """A schema of 1..4 argument objects is built once per run - as the argument objects of a Command class are - and
+    used for 1..5 rounds of fresh values.  Some rounds carry, for some of the arguments, a malformed value (damage());
+    what such a value decodes to is not judged, but every well-formed value, before or after, must decode equal."""
+    schema = []
     for i in range(sim.draw_int(1, 4, "nargs")):
         at, label, gen = gen_type(sim, 0)
-        value = gen(sim)
-        name = ("a%d" % i).encode()
-        items.append((name, at, label, value))
-        sim.event("arg", name, label, show(value)[:200])
-        with sim.guard("argument-encode-raised", label.split("(")[0]):
-            at.toBox(name, box, {name.decode(): value}, a)
-    if not ampwire.representable(box):
-        # an encoded value outgrew a box value: outside the statement's domain
-        sim.probe("args_too_big")
-        sim.nontrivial = False
-        return
-    expected = [dict(box)]
-    ctx = lambda: "args %r" % ([(n, l, show(v)[:120]) for n, a_, l, v in items],)
-    with sim.guard("valid-box-refused"):
-        a.sendBox(box)
-    pieces = deliver_all(sim, link, rb, expected, ctx)
-    sim.check("boxes-equal", rb.boxes == expected, "args", lambda: "received %s sent %s; %s" % (brief(rb.boxes), brief(expected), ctx()))
-    got = amp.AmpBox(rb.boxes[0])
-    for name, at, label, value in items:
-        out = {}
-        with sim.guard("argument-decode-raised", label.split("(")[0]):
-            at.fromBox(name, got.copy(), out, b)
-        dec = out.get(name.decode())
-        sim.check("argument-equal", equal(value, dec), label.split("(")[0],
-                  lambda: "%s: encoded %s as %r, decoded %s" % (label, show(value), expected[0].get(name), show(dec)))
-        sim.probe("arg_" + label.split("(")[0])
-    sim.state(("args", tuple(sorted(set(l.split("(")[0] for n, a_, l, v in items)))))
-    sim.nontrivial = len(pieces) > 1
+        schema.append((("a%d" % i).encode(), at, label, gen))
+    api = sim.draw_weighted([("argument", 5), ("command", 3)], "api")
+    nrounds = sim.draw_weighted([(1, 5), (2, 3), (3, 2), (sim.draw_int(4, 5, "nrounds"), 1)], "roundskind")
+    cmd = None
+    if api == "command":
+        cmd = type(amp.Command)("Cmd", (amp.Command,), {"arguments": [(n, at) for n, at, l, g in schema]})
+    sim.config = {"mode": "args", "api": api, "rounds": nrounds}
+    conns = [conn0]
+    tainted = set()      # indices of argument objects that have been handed a malformed value
+    uses = [0] * len(schema)
+    history = []
+    npieces = ndamaged_rounds = delivered = 0
+    for rnd in range(nrounds):
+        conn = conns[0]
+        if rnd and sim.draw_bool(0.25, "other-conn"):
+            # argument objects are shared by every connection that uses the command
+            if len(conns) == 1:
+                conns.append(Conn(sim, "2"))
+            conn = conns[1]
+            sim.probe("args_second_connection")
+        a, b, rb, link = conn.a, conn.b, conn.rb, conn.link
+        values = [gen(sim) for n, at, l, gen in schema]
+        for (name, at, label, gen), value in zip(schema, values):
+            sim.event("arg", rnd, conn.tag, name, label, show(value)[:200])
+        box = amp.AmpBox()
+        if cmd is not None:
+            with sim.guard("argument-encode-raised", "command"):
+                box = cmd.makeArguments({n.decode(): v for (n, at, l, g), v in zip(schema, values)}, a)
+        else:
+            for (name, at, label, gen), value in zip(schema, values):
+                with sim.guard("argument-encode-raised", label.split("(")[0]):
+                    at.toBox(name, box, {name.decode(): value}, a)
+        damaged = {}
+        if sim.draw_bool(0.35, "damaged-round"):
+            picks = [i for i in range(len(schema)) if sim.draw_bool(0.5, "dmg-this")] or [sim.draw_int(0, len(schema) - 1, "dmg-which")]
+            for i in picks:
+                name, at, label, gen = schema[i]
+                if sim.draw_bool(0.08, "dmg-missing"):
+                    op, dmg = "missing", None
+                    del box[name]
+                else:
+                    op, dmg = damage(sim, at, values[i], a)
+                    if dmg == box[name]:
+                        continue        # the operator left the value as it was
+                    box[name] = dmg
+                damaged[i] = op
+                sim.fault("damaged_value_" + (op if not op.startswith("inner-") else "inner"))
+                sim.event("damaged", rnd, name, op, dmg)
+        if not ampwire.representable(box):
+            # an encoded value outgrew a box value: outside the statement's domain
+            sim.probe("args_too_big")
+            continue
+        history.append((rnd, conn.tag, [(n.decode(), l, damaged.get(i, "ok"), show(v)[:120])
+                                        for i, ((n, at, l, g), v) in enumerate(zip(schema, values))]))
+        ctx = lambda: "api %s, rounds (round, connection, [(name, type, ok/damage, value)]) %r" % (api, history)
+        conn.expected.append(dict(box))
+        with sim.guard("valid-box-refused"):
+            a.sendBox(box)
+        npieces = max(npieces, len(deliver_all(sim, link, rb, conn.expected, ctx, 5000 * nrounds)))
+        sim.check("boxes-equal", rb.boxes == conn.expected, "args",
+                  lambda: "received %s sent %s; %s" % (brief(rb.boxes), brief(conn.expected), ctx()))
+        delivered += 1
+        ndamaged_rounds += bool(damaged)
+        got = amp.AmpBox(rb.boxes[-1])
+        decoded = {}
+        if cmd is not None:
+            if damaged:
+                # one malformed member may make the whole parse fail; no verdict on that
+                try:
+                    decoded = cmd.parseArguments(got, b)
+                    sim.probe("damaged_accepted")
+                except Exception as e:
+                    sim.event("damaged-refused", type(e).__name__)
+                    sim.probe("damaged_refused")
+                    decoded = None
+            else:
+                with sim.guard("argument-decode-raised", "command"):
+                    decoded = cmd.parseArguments(got, b)
+        for i, ((name, at, label, gen), value) in enumerate(zip(schema, values)):
+            base = label.split("(")[0]
+            uses[i] += 1
+            if i in damaged:
+                if cmd is None:
+                    try:
+                        at.fromBox(name, got.copy(), {}, b)
+                        sim.probe("damaged_accepted")
+                    except Exception as e:
+                        sim.event("damaged-refused", name, type(e).__name__)
+                        sim.probe("damaged_refused")
+                tainted.add(i)
+                continue
+            if cmd is None:
+                with sim.guard("argument-decode-raised", base):
+                    at.fromBox(name, got.copy(), decoded, b)
+            elif decoded is None:
+                continue
+            dec = decoded.get(name.decode())
+            sim.check("argument-equal", equal(value, dec), base,
+                      lambda: "%s: encoded %s as %r, decoded %s; %s" % (label, show(value), conn.expected[-1].get(name), show(dec), ctx()))
+            sim.probe("arg_" + base)
+            if uses[i] > 1:
+                sim.probe("arg_object_reused")
+            if i in tainted:
+                sim.probe("arg_decoded_after_malformed")
+    for c in conns:
+        sim.check("sender-quiet", not c.ra.boxes, "args", lambda: "sender's receiver got %r" % (c.ra.boxes,))
+        sim.check("receiver-closed", not c.link.b.disconnecting and not c.rb.stopped, "args",
+                  lambda: "the receiving side of connection %s was closed" % c.tag)
+    sim.state(("args", tuple(sorted(set(l.split("(")[0] for n, a_, l, g in schema))), min(delivered, 3), min(ndamaged_rounds, 2)))
+    sim.nontrivial = npieces > 1 and delivered > 0
 
 
 def run(sim):
     mode = sim.draw_weighted([("wire", 6), ("args", 4)], "mode")
-    ra, rb = Rec(), Rec()
-    a = amp.BinaryBoxProtocol(ra)
-    b = amp.BinaryBoxProtocol(rb)
-    link = net.Link(sim, a, b)
-    link.connect()
+    conn = Conn(sim, "1")
     sim.config = {"mode": mode}
     if mode == "wire":
-        run_wire(sim, link, a, b, rb)
+        run_wire(sim, conn.link, conn.a, conn.b, conn.rb)
+        sim.check("sender-quiet", not conn.ra.boxes, mode, lambda: "sender's receiver got %r" % (conn.ra.boxes,))
     else:
-        run_args(sim, link, a, b, rb)
-    sim.check("sender-quiet", not ra.boxes, mode, lambda: "sender's receiver got %r" % (ra.boxes,))
+        run_args(sim, conn)
 
 
 # Sensitivity (tools/mutate.py C30 --sub src/twisted/protocols/amp.py OLD NEW; known empty-key
@@ -424,5 +582,13 @@ MUTANTS = [
     "DateTime.toString: 'if minutesOffset > 0' -> '< 0' (sign flipped) : caught (argument-equal:DateTime)",
     "Unicode.toString: encode('utf-8') -> encode('latin-1', 'replace') : caught (argument-decode-raised:Unicode:UnicodeDecodeError)",
     "Argument.fromBox: optional absent member not set to None : caught (argument-equal:AmpList)",
+    "ListOf.fromString: the Int16StringReceiver kept on the argument object instead of one per value (the undelivered tail of a "
+    "truncated list value is prepended to the next value) : caught (argument-equal:ListOf, argument-decode-raised:ListOf/command)",
+    "ListOf.fromString: element strings accumulated in a list kept on the argument object and popped as they decode (elements left "
+    "behind when an element decoder raised) : caught (argument-equal:ListOf)",
+    "AmpList.fromStringProto: one BinaryBoxProtocol row parser kept on the argument object instead of parseString per value : "
+    "caught (argument-equal:AmpList, argument-decode-raised:AmpList/command)",
+    "Unicode.fromString: an incremental UTF-8 decoder kept on the argument object (the bytes of a cut multi-byte character are "
+    "prepended to the next value) : caught (argument-decode-raised:Unicode/ListOf/command:UnicodeDecodeError)",
     "candidate FIX AmpBox.serialize: 'if len(k) == 0: raise ValueError(...)' before the TooLong check : check passes with EMPTY_KEY_WEIGHT=8 (24000 runs, exit 0)",
 ]
